@@ -23,7 +23,7 @@
    (H_cse of round 1 is now the theorem C03_cse_preserves_pack.) *)
 From Coq Require Import ZArith NArith List Bool.
 From VV Require Import Base.F64 Base.Values Interp.Strategy Mep.Genome Mep.OpsDefs.
-From VV Require Import Sig.Bits64 Sig.Murmur Sig.SigDefs Sig.SigProofs Sig.TreeProofs Sig.CseDefs Sig.CseSig.
+From VV Require Import Sig.Bits64 Sig.Murmur Sig.SigDefs Sig.SigProofs Sig.TreeProofs Sig.CseDefs Sig.CseSig Sig.F64Bits Sig.TreeValues.
 Import ListNotations.
 
 (* ================= 1. pack is a prefix-free code of the active tree ====== *)
@@ -44,6 +44,25 @@ Theorem C03_pack_eq_iff_tree_eq : forall U, coherent U -> forall g1 g2 t1 t2,
   (mep_pack g1 = mep_pack g2 <-> canon t1 = canon t2).
 Proof. exact pack_eq_iff_tree_eq. Qed.
 Print Assumptions C03_pack_eq_iff_tree_eq.
+
+(* the model's binary64 values are determined by their object representation *)
+Theorem C03_to_bits_injective : forall x y : f64, F64.to_bits x = F64.to_bits y -> x = y.
+Proof. exact to_bits_injective. Qed.
+Print Assumptions C03_to_bits_injective.
+
+(* so canonical trees are trees of symbols and constant VALUES: with distinct
+   16-bit opcodes, equal packs <-> same symbol at every node and same constant
+   at every parametric terminal (same_tree) *)
+Theorem C03_canon_eq_iff_same_symbols_and_constants : forall U, distinct_opcodes U -> forall t1 t2,
+  over U t1 -> over U t2 -> (canon t1 = canon t2 <-> same_tree t1 t2).
+Proof. exact canon_eq_iff_same_tree. Qed.
+Print Assumptions C03_canon_eq_iff_same_symbols_and_constants.
+
+Theorem C03_pack_eq_iff_same_symbols_and_constants : forall U, distinct_opcodes U -> forall g1 g2 t1 t2,
+  genome_over U g1 -> genome_over U g2 -> active_tree g1 = Some t1 -> active_tree g2 = Some t2 ->
+  (mep_pack g1 = mep_pack g2 <-> same_tree t1 t2).
+Proof. exact pack_eq_iff_same_tree. Qed.
+Print Assumptions C03_pack_eq_iff_same_symbols_and_constants.
 
 (* ================= 2. the signature is a function of the tree only ======= *)
 Theorem C03_signature_depends_only_on_tree : forall g,
@@ -92,7 +111,7 @@ Print Assumptions C03_signature_eq_iff_tree_eq_up_to_A_hash.
 Theorem C03_equal_tree_equal_output : forall (X : Type) (den : ctree -> X) g1 g2 t1 t2,
   active_tree g1 = Some t1 -> active_tree g2 = Some t2 -> canon t1 = canon t2 ->
   den (canon t1) = den (canon t2).
-Proof. intros X den g1 g2 t1 t2 _ _ E. exact (f_equal den E). Qed.
+Proof. exact equal_tree_equal_output. Qed.
 Print Assumptions C03_equal_tree_equal_output.
 
 (* ================= 3. the cached signature is never stale ================= *)
@@ -115,11 +134,7 @@ Theorem C03_cse_preserves_every_tree : forall U g g', sym_id U -> typed g -> gen
   cse_bits g = Some g' ->
   rows g' = rows g /\ cats g' = cats g /\ best g' = best g /\ typed g' /\ genome_over U g' /\
   forall f l, option_map canon (tree_of f g' l) = option_map canon (tree_of f g l).
-Proof.
-  intros U g g' HU Ht Ho H.
-  exact (cse_genome_trees gene_cmp_bits U (fun _ => True) (fun _ _ _ => I) (gene_cmp_bits_sound U HU)
-           g g' Ht Ho (fun _ _ _ _ => I) H).
-Qed.
+Proof. exact cse_bits_trees. Qed.
 Print Assumptions C03_cse_preserves_every_tree.
 
 (* the comparator before that fix (a.par < b.par) only under the proviso that
@@ -154,11 +169,22 @@ Print Assumptions C03_cache_never_stale_ide.
 Theorem C03_cache_never_stale_team : forall pc t h t',
   team_reach pc t -> team_signature t = Some (h, t') ->
   hash_team (content t) = Some h /\ Forall (cache_ok hash_mep) (content t').
-Proof.
-  intros pc t h t' Hr Hs. apply team_reach_ok in Hr.
-  destruct (team_signature_correct t h t' Hr Hs) as [H1 [_ [H3 _]]]. exact (conj H1 H3).
-Qed.
+Proof. exact team_never_stale. Qed.
 Print Assumptions C03_cache_never_stale_team.
+
+(* one step of a team (mutation, crossover, load ok/failed, member signature(),
+   assignment from a consistent team) preserves the team's and every member's
+   invariant; in particular team::load leaves all caches empty *)
+Theorem C03_team_step_preserves_invariant : forall pc t o t',
+  team_ok t -> team_op_ok team_ok o -> team_step pc t o = Some t' -> team_ok t'.
+Proof. exact team_step_preserves. Qed.
+Print Assumptions C03_team_step_preserves_invariant.
+
+Theorem C03_team_load_clears_every_cache : forall pc t gs t',
+  team_step pc t (TLoad (Some gs)) = Some t' ->
+  sig_cache t' = None /\ Forall (fun m : mep => sig_cache m = None) (content t') /\ map (@content genome) (content t') = gs.
+Proof. exact team_load_clears. Qed.
+Print Assumptions C03_team_load_clears_every_cache.
 
 (* ================= 4. team signature = ordered fold of combine ============ *)
 Theorem C03_team_signature_is_fold_of_combine : forall pc t h t',
